@@ -338,6 +338,20 @@ def rule_stacked_cells_full_width(ctx, rid):
     sbs = seen.get(False) or ""
     ctx.check(cw is not None and re.fullmatch(r"\(\(%s \+ [^()+]*\bcolspan\) - 1_usize\)" % re.escape(cw), sbs) is not None, rid,
               "into_cells:side-by-side-width=Σcols+separators", st["span"], b.id, "side-by-side width is %s" % seen.get(False, seen.get(None)))
+    # a cell is skipped only when its whole allocated width (the column sum held in the same local) is zero
+    if colw is not None:
+        gov = False
+        for (a, s) in b.cdeps_transitive(bb):
+            truth, src = edge_is_true(b, a, s)
+            if src and src[0] == "bin" and src[1]["bin"] in ("Gt", "Ne") and truth is True:
+                pa = op_place(src[1]["a"])
+                k = op_const(src[1]["b"])
+                pa = direct_place(b, src[1]["a"]) if pa is not None else None
+                if pa is not None and is_bare(pa) and pa["l"] == colw and k is not None and k.get("int") == 0:
+                    gov = True
+        ctx.check(gov, rid, "into_cells:cell-kept-iff-whole-width>0", st["span"], b.id,
+                  "the test that decides whether a cell is laid out must look at the cell's whole width (the sum over the "
+                  "columns it spans): a spanning cell whose first column is empty still has room")
     # and the column size itself: vertical ⇒ col_sizes[colno], else Σ col_sizes[colno..colno+colspan]
     if colw is not None:
         forms = {}
@@ -372,6 +386,26 @@ def rule_footnote_wrap(ctx, rid):
                                   ("render::text_renderer::RenderOptions", "wrap_links"))
                 ctx.check(unreachable_without_edges(b, a, cut), rid, "fmt_links:break-test-under-wrap_links#%d" % n, b.term(a)["span"], b.id, "")
     ctx.floor(rid, "footnote break tests against self.width", n, 2)
+    # the string that is measured is the string that is emitted: the width used by the fit test, the characters the
+    # splitting loop walks and the text pushed unsplit all come from the same value
+    def src_of(op):
+        o = origin(b, op)
+        if o is None:
+            return None
+        if o[0] == "call":
+            return ("call", o[1]["span"], callee_method(o[1]))
+        if o[0] == "place":
+            return ("place", b.canon(o[1]))
+        return (o[0],)
+    ws = [t for bb, t in b.calls(lambda cd, t: callee_method(t) == "width" and "UnicodeWidthStr" in (cd or ""))]
+    cs = [t for bb, t in b.calls(lambda cd, t: callee_method(t) == "chars")]
+    os_ = [t for bb, t in b.calls(lambda cd, t: callee_method(t) in ("to_owned", "to_string", "clone") and "str" in (cd or "").lower())]
+    srcs = {"measured": {src_of(t["args"][0]) for t in ws}, "split": {src_of(t["args"][0]) for t in cs},
+            "unsplit": {src_of(t["args"][0]) for t in os_}}
+    allsrc = set().union(*srcs.values())
+    ctx.check(len(ws) == 1 and len(cs) == 1 and len(allsrc) == 1 and None not in allsrc, rid, "fmt_links:measured-string=emitted-string",
+              b.span, b.id, "the fit test measures %s, the splitting loop walks %s, the unsplit push copies %s"
+              % (sorted(map(str, srcs["measured"])), sorted(map(str, srcs["split"])), sorted(map(str, srcs["unsplit"]))))
 
 
 def table_locals(F):
@@ -498,3 +532,32 @@ def rule_min_size_matches_shrink(ctx, rid):
     ctx.check(len(decisions) == 1 and any(r[0] == "stmt" and (op_const((r[3].get("rv") or {}).get("use") or {}) or {}).get("v") == "true"
                                            and decisions[0][0] in {a for a, _s in b.cdeps_transitive(r[1])} for r in b.defs()[V]),
               rid, "stacked-iff-min_size>width", b.span, b.id, "the layout decision must set the stacked flag")
+
+
+def rule_estimate_merge(ctx, rid):
+    """A column's estimate is the component-wise maximum of the estimates of the cells in it: the merge used by
+    render_table_tree (and RenderTable::calc_size_estimate) is the crate's own SizeEstimate::max, whose result is
+    {max(size), max(min_width)}.  (A derived, lexicographic Ord::max would let a wide cell overwrite a larger
+    minimum width; the layout decision and the shrink loop then work with minimum widths that are too small.)"""
+    F = ctx.facts
+    n = 0
+    for fn in ("render_table_tree", "RenderTable::calc_size_estimate"):
+        b = F.one(fn)
+        for bb, t in b.calls(lambda cd, t: callee_method(t) in ("max", "min", "max_by", "max_by_key", "clamp") and
+                             "SizeEstimate" in ((t.get("callee") or {}).get("self_ty") or "") + " ".join((t.get("callee") or {}).get("targs") or [])):
+            n += 1
+            ctx.check(callee_def(t) == "SizeEstimate::max" and (t.get("callee") or {}).get("resolved_local"), rid,
+                      "%s:estimates-merged-by-SizeEstimate::max" % fn, t["span"], b.id,
+                      "column estimates are combined with %s" % callee_def(t))
+    ctx.floor(rid, "estimate merges in the table code", n, 1)
+    m = F.one("SizeEstimate::max")
+    forms = []
+    for x in m.reachable():
+        for st in m.stmts(x):
+            rv = st.get("rv") or {}
+            if rv.get("agg") == "adt" and rv.get("adt") == "SizeEstimate":
+                forms.append(dict(zip(rv["fields"], [norm(m.canon(o)) for o in rv["ops"]])))
+    okc = len(forms) == 1 and all(
+        forms[0].get(f) in ("cmp::max(self.%s, arg2.%s)" % (f, f), "cmp::max(arg2.%s, self.%s)" % (f, f),
+                            "Ord::max(self.%s, arg2.%s)" % (f, f), "Ord::max(arg2.%s, self.%s)" % (f, f)) for f in ("size", "min_width"))
+    ctx.check(okc, rid, "SizeEstimate::max:component-wise", m.span, m.id, str(forms))
